@@ -169,11 +169,11 @@ func (e *Engine) typeID(T types.Type) string {
 
 func (e *Engine) funcID(name string) string {
 	if id, ok := e.funcIDs[name]; ok {
-		return fmt.Sprint(-100 - id)
+		return numi(int64(-100 - id))
 	}
 	id := len(e.funcIDs) + 1
 	e.funcIDs[name] = id
-	return fmt.Sprint(-100 - id)
+	return numi(int64(-100 - id))
 }
 
 func (e *Engine) fieldID(S types.Type, f string) int {
